@@ -5,7 +5,7 @@
 id=$1
 WT=/tmp/wt/$id
 OUT=/tmp/seedout/$id
-export CARGO_TARGET_DIR=/tmp/wt/target-shared CARGO_NET_OFFLINE=true
+export CARGO_TARGET_DIR=${VS_TARGET:-/tmp/wt/target-shared} CARGO_NET_OFFLINE=true
 {
 cd $WT || exit 1
 git checkout -q -- . ; git clean -fdq -e target
